@@ -633,6 +633,36 @@ class Runner:
                     raise env.make_exc(op.get("o", "exc"))          # any exception class, hostile ones included
                 except BaseException:
                     write_traceback()
+            elif name == "LeaveElsewhere":
+                # a generator suspended inside a block of action a, advanced by ANOTHER thread (so the block was entered in that
+                # thread's context), is closed here.  Whether the library refuses (ValueError from ContextVar.reset) or completes
+                # the leave is not judged; this context's current action is (the `cur` of the ret event).
+                a = env.acts[op["a"] - 1]
+                kind = op["kind"]
+
+                def suspended():
+                    if kind == "with":
+                        with a:
+                            yield
+                    else:
+                        with a.context():
+                            yield
+                gen = suspended()
+                others = [x for x in env.acts if x is not None and x is not a]
+                inside = others[(env.wit + len(env.ev)) % len(others)] if others and (env.wit + len(env.ev)) % 3 else None
+                t = threading.Thread(target=(lambda: inside.run(next, gen)) if inside is not None else (lambda: next(gen)))
+                t.start()
+                t.join()
+                was = env.recording
+                env.recording = False         # what the implementation logs while it refuses / completes is not compared
+                try:
+                    try:
+                        gen.close()
+                        v = "completed"
+                    except ValueError:
+                        v = "refused"
+                finally:
+                    env.recording = was
             elif name == "SerializeId":
                 tid = current_action().serialize_task_id()
                 if not isinstance(tid, bytes):
